@@ -238,6 +238,9 @@ def run(ctx: Ctx, env):
     ctx.trust("OData ABNF (odata-abnf-construction-rules) for primitive literals and identifiers; ISO 8601 / datetime.date year range 0001-9999")
 
     # ---- R6 the Python value of the other single-token literals (last: a hand-written conversion ends the run without a verdict) ----
+    # every spelling the lexer accepts (upper / lower case t, z, e, true, ...) must have a value: the case rule of C19
+    from .c19 import check_py_val_case
+    check_py_val_case(ctx, env, "R6.value-for-every-accepted-spelling")
     _standard_conversions(ctx, env)
 
 
